@@ -1,6 +1,6 @@
 SPECIFICATION Spec
 CONSTANTS
-  Fams = {"cross4", "corner", "mixed4"}
+  Fams = {"lshape", "para"}
   MaxRoutes = 3
   PerClass = 4
   DEV_RemoveNoRebuild = FALSE
